@@ -322,6 +322,9 @@ def isDiagonalLoop (l : Loop α) (s : Segment α) (n : Nat) : Nat → Nat → Re
     if n == 0 then .panic "loop3d.rs:is_diagonal:rem-by-zero" else
     let a ← vget l.vertices (i % n) "loop3d.rs:is_diagonal:a"
     let b ← vget l.vertices ((i + 1) % n) "loop3d.rs:is_diagonal:b"
+    -- a diagonal cannot pass through a vertex of the loop (other than its own ends)
+    let through ← (if !(a.compare s.start) && !(a.compare s.stop) then s.containsPoint a else Res.ok false)
+    if through then .ok false else
     let polyS := Segment.new a b
     let intersects := (s.intersect polyS).isSome
     let differentLength := Num.abs (s.length - polyS.length) >. (1e-7 : α)
